@@ -402,6 +402,10 @@ func ruleGuardScoped(c *Ctx, keep func(string) bool) {
 			}
 			held := p.MustHeldAt(f, a.node)
 			lk := guard[a.fv]
+			if !a.write && p.rshadow[lk] != nil && held[p.rshadow[lk]] {
+				c.R.Hold("R-GUARD", p.Pos(a.sel), f.Name, accessStr(a, fn), p.lockName(lk)+" is held in read mode on every path (a read)", true)
+				continue
+			}
 			if held[lk] {
 				c.R.Hold("R-GUARD", p.Pos(a.sel), f.Name, accessStr(a, fn), p.lockName(lk)+" is held on every path (own region or all callers)", true)
 				continue
